@@ -747,6 +747,70 @@ REQUIRED_CLAUSES = ["copy_to:listed:ready", "copy_to:listed:missing", "copy_to:a
                     "save_html:all-ready", "save_html:fails:missing"]
 
 
+def repeat_save_oracle(ck, n: int):
+    """the same dependency saved several times in ONE process into the SAME directory, with the destination and the
+    sources edited in between: after every save the statement must hold afresh (stale content gone, every listed
+    file byte-identical to its *current* source) — a save must not remember an earlier one"""
+    import shutil
+    import tempfile
+    from htmltools import HTMLDependency, HTMLDocument, Tag, TagList
+    rng = ck.rng
+    done = 0
+    for _ in range(n):
+        root = tempfile.mkdtemp(prefix="c12rep-")
+        try:
+            src = os.path.join(root, "src")
+            os.makedirs(os.path.join(src, "js"))
+            files = {"js/app one.js": b"v1-app", "main.css": b"v1-css", "data#1.json": b"{}"}
+            for rel, data in files.items():
+                with open(os.path.join(src, rel), "wb") as f:
+                    f.write(data)
+            allf = rng.random() < 0.4
+            dep = HTMLDependency("widget", rng.choice(["2.1.0", "1"]), source={"subdir": src},
+                                 script=[{"src": "js/app one.js"}, {"src": "data#1.json"}], stylesheet={"href": "main.css"}, all_files=allf)
+            libdir = rng.choice(["lib", "assets/lib", None])
+            iv = rng.random() < 0.6
+            out = os.path.join(root, "site")
+            os.makedirs(out)
+            file = os.path.join(out, "index.html")
+            target = os.path.join(out, *( [libdir] if libdir else [] ), "widget" + (("-" + str(dep.version)) if iv else ""))
+            receivers = [lambda: Tag("div", dep), lambda: TagList("x", dep), lambda: HTMLDocument(Tag("p", dep))]
+
+            def check(step):
+                want = {rel: open(os.path.join(src, rel), "rb").read() for rel in files if os.path.exists(os.path.join(src, rel))}
+                got = {}
+                for dp, _dn, fn in os.walk(target):
+                    for name in fn:
+                        full = os.path.join(dp, name)
+                        got[os.path.relpath(full, target).replace(os.sep, "/")] = open(full, "rb").read()
+                if got != want:
+                    ck.py_violation(f"repeat_save step={step} libdir={libdir!r} include_version={iv} all_files={allf}",
+                                    repr(sorted(got.items()))[:300],
+                                    f"after save #{step} into the same directory the dependency's target holds {sorted(got)} with contents differing from "
+                                    f"the current sources {sorted(want)} (stale file kept, damaged copy not refreshed, or deleted copy not restored)",
+                                    py="save_html() twice in one process with the destination / sources edited in between")
+                    return False
+                return True
+            for step in (1, 2, 3):
+                ret = receivers[(step + done) % 3]().save_html(file, libdir=libdir, include_version=iv)
+                ck.holds_checked += 1
+                if ret != file or not check(step):
+                    break
+                if step == 1:       # damage the destination
+                    open(os.path.join(target, "js", "old-bundle.js"), "wb").write(b"stale")
+                    open(os.path.join(target, "main.css"), "wb").write(b"damaged")
+                    os.remove(os.path.join(target, "data#1.json"))
+                elif step == 2:     # new versions of the sources
+                    for rel in files:
+                        open(os.path.join(src, rel), "wb").write(b"v2-" + rel.encode())
+            done += 1
+        except Exception as e:  # noqa: BLE001
+            ck.py_violation("repeat_save", f"raised {type(e).__name__}: {e}", f"saving a well-formed dependency again raised {type(e).__name__}: {e}")
+        finally:
+            shutil.rmtree(root, ignore_errors=True)
+    ck.extra_cov["repeat_save_histories"] = done
+
+
 def run(tier: str) -> int:
     ck = core.Check(PID, tier, PROP_FILES)
     ck.prepare()
@@ -764,6 +828,7 @@ def run(tier: str) -> int:
             ck.holds_checked += 1
             py_oracle(ck, l, im)
     ck.correspond(holds=True)
+    repeat_save_oracle(ck, ck.budget(12, 150))
     cov = clause_coverage(ck, lines)
     ck.extra_cov["statement_clauses_exercised"] = cov
     thin = [c for c in REQUIRED_CLAUSES if cov.get(c, 0) < 5]
